@@ -98,11 +98,77 @@ def _decode_mixed(c: int, spans: list[int]) -> list[int]:
 
 
 # ---------------------------------------------------------------- permutation families
+class _LazyPerms:
+    """the bounded permutation family of n > PERM_FULL_MAX items as a read-only sequence: identity, reversal, the n-1 adjacent
+    transpositions, the n-1 rotations - same members, same indices as the explicit list, built on demand (the explicit list holds
+    2n tuples of n integers: 7 GB for the 9800 edges of a 50x50 lattice listed in both directions)"""
+
+    def __init__(self, n: int):
+        self.n = n
+
+    def __len__(self):
+        return 2 * self.n
+
+    def __getitem__(self, k: int) -> tuple[int, ...]:
+        n = self.n
+        if k < 0:
+            k += 2 * n
+        if not 0 <= k < 2 * n:
+            raise IndexError(k)
+        if k == 0:
+            return tuple(range(n))
+        if k == 1:
+            return tuple(range(n - 1, -1, -1))
+        if k <= n:
+            i = k - 2
+            p = list(range(n))
+            p[i], p[i + 1] = p[i + 1], p[i]
+            return tuple(p)
+        r = k - n
+        return tuple(range(r, n)) + tuple(range(r))
+
+    def __iter__(self):
+        return (self[k] for k in range(2 * self.n))
+
+
+class _LazyFlips:
+    """the bounded flip family of e > FLIP_FULL_MAX items: all 0, all 1, each single 1, alternating 0101.., alternating 1010.."""
+
+    def __init__(self, e: int):
+        self.e = e
+
+    def __len__(self):
+        return self.e + 4
+
+    def __getitem__(self, k: int) -> tuple[int, ...]:
+        e = self.e
+        if k < 0:
+            k += e + 4
+        if not 0 <= k < e + 4:
+            raise IndexError(k)
+        if k == 0:
+            return (0,) * e
+        if k == 1:
+            return (1,) * e
+        if k < e + 2:
+            i = k - 2
+            return (0,) * i + (1,) + (0,) * (e - i - 1)
+        return tuple((i + (k - e - 2)) % 2 for i in range(e))
+
+    def __iter__(self):
+        return (self[k] for k in range(self.e + 4))
+
+
+LAZY_FAMILY_FROM = 32  # explicit lists below this size (cheap, and cached), lazy sequences from it on
+
+
 @functools.lru_cache(maxsize=256)
-def perm_family(n: int) -> list[tuple[int, ...]]:
+def perm_family(n: int):
     """all n! for n <= PERM_FULL_MAX, else identity, reversal, adjacent transpositions, rotations"""
     if n <= PERM_FULL_MAX:
         return list(itertools.permutations(range(n)))
+    if n >= LAZY_FAMILY_FROM:
+        return _LazyPerms(n)
     fam = [tuple(range(n)), tuple(range(n - 1, -1, -1))]
     for i in range(n - 1):
         p = list(range(n))
@@ -119,9 +185,11 @@ def perm_family(n: int) -> list[tuple[int, ...]]:
 
 
 @functools.lru_cache(maxsize=256)
-def flip_family(e: int) -> list[tuple[int, ...]]:
+def flip_family(e: int):
     if e <= FLIP_FULL_MAX:
         return list(itertools.product((0, 1), repeat=e))
+    if e >= LAZY_FAMILY_FROM:
+        return _LazyFlips(e)
     fam = [tuple([0] * e), tuple([1] * e)]
     for i in range(e):
         v = [0] * e
